@@ -89,18 +89,53 @@ def make_count(kind, seed, init, n_warm, n_main, kw):
     return _R.n
 
 
+def ctrl_c_search(ctx):
+    """Ctrl-C on a terminal reaches the parent process as well as (or instead of) the workers: a multi-process, multi-stage run interrupted during warm-up returns
+    normally and starts no later stage.  Run in a process of its own (tie/ctrl_c_scenario.py): the signal is delivered to that process, not to this harness."""
+    import json
+    import os
+    import subprocess
+    import sys
+    bad = 0
+    here = os.path.dirname(os.path.abspath(__file__))
+    for mode in ("also_raise", "only_parent"):
+        for k in (4, 9):
+            seed = int(ctx.rng.integers(0, 2 ** 31))
+            ctx.case(("ctrl-c", mode, k))
+            ctx.count(f"search:interrupt:ctrl_c:{mode}")
+            try:
+                r = subprocess.run([sys.executable, "-W", "ignore", os.path.join(here, "ctrl_c_scenario.py"), mode, str(k), str(seed)], capture_output=True, text=True, timeout=300,
+                                   env=dict(os.environ))
+                line = next((ln for ln in r.stdout.splitlines() if ln.startswith("RESULT ")), None)
+                res = json.loads(line[7:]) if line else {"returned": False, "escaped": f"process ended with status {r.returncode} without a result: {r.stderr.strip()[-200:]}", "late_rows": []}
+            except subprocess.TimeoutExpired:
+                res = {"returned": False, "escaped": "did not return within 300 s (hang)", "late_rows": []}
+            if not res["returned"]:
+                bad += 1
+                ctx.fail("interrupt:ctrl_c:escapes", f"sample_chains did not return normally when SIGINT reached the parent process during warm-up (mode {mode}, worker call #{k}): "
+                         f"{res['escaped']}", {"mode": mode, "k": k, "seed": seed})
+            elif res["late_rows"]:
+                bad += 1
+                ctx.fail("interrupt:ctrl_c:later_stage_started", f"SIGINT reached the parent process during the first warm-up stage (mode {mode}, worker call #{k}) but main-stage rows of "
+                         f"chains {res['late_rows']} were written afterwards: later stages were started", {"mode": mode, "k": k, "seed": seed})
+    ctx.oblige("search: SIGINT delivered to the parent process during warm-up of a 2-process, multi-stage run (with and without the worker raising too): returns normally, "
+               "no row of a later stage written", bad == 0, f"{bad} failures")
+
+
 def real_interrupt_search(ctx):
     import mici
     global _R
     bad = 0
     configs = [("static", 2, 0, 4, False, 1), ("static", 3, 3, 3, True, 1), ("multinomial", 2, 0, 3, False, 1), ("static", 2, 2, 3, True, 2),
-               ("static", 3, 0, 5, False, 2)]
+               ("static", 3, 0, 5, False, 2), ("static:notrace", 2, 2, 3, True, 1)]      # :notrace = statistics recorded but no trace functions (trace_funcs=[])
     if ctx.thorough:
         configs += [("multinomial", 3, 4, 3, True, 1), ("static", 2, 0, 4, False, 2), ("multinomial", 2, 3, 2, True, 2)]
     for kind, n_chain, n_warm, n_main, memmap, n_process in configs:
+        notrace = kind.endswith(":notrace")
+        kind = kind.split(":")[0]
         seed = int(ctx.rng.integers(0, 2 ** 31))
         inits = [np.array(ctx.rng.standard_normal(2)) for _ in range(n_chain)]
-        kw = dict(trace_funcs=[trace], display_progress=False, trace_warm_up=True, n_process=n_process,
+        kw = dict(trace_funcs=[] if notrace else [trace], display_progress=False, trace_warm_up=True, n_process=n_process,
                   adapters=[mici.adapters.DualAveragingStepSizeAdapter(0.8), mici.adapters.OnlineVarianceMetricAdapter()] if n_warm else None,
                   stager=mici.stagers.WindowedWarmUpStager(2, 1, 0, 2) if n_warm else None)
 
@@ -119,7 +154,8 @@ def real_interrupt_search(ctx):
                 np.memmap.__setitem__ = _orig_setitem
                 s.system.metric = metric0
         full, total_calls = run(None)
-        fulltr = [np.asarray(a).copy() for a in full.traces["pos"]]
+        fulltr = [np.asarray(a).copy() for a in full.traces["pos"]] if not notrace else None
+        fullst = [np.asarray(a).copy() for a in full.statistics["accept_stat"]]
         if n_process == 1:
             ks = list(range(0, total_calls, max(1, total_calls // (25 if not ctx.thorough else 120))))
         else:
@@ -142,6 +178,12 @@ def real_interrupt_search(ctx):
                 ctx.count(f"search:interrupt:{'parallel' if n_process > 1 else 'sequential'}")
                 probs = []
                 for c in range(n_chain):
+                    if notrace:      # statistics arrays play the role of the trace arrays
+                        sa = np.asarray(out.statistics["accept_stat"][c])
+                        wr = ~np.isnan(sa)
+                        if not np.all(wr[:int(wr.sum())]) or not np.array_equal(sa[wr], fullst[c][wr]):
+                            probs.append(f"chain {c}: statistics rows are not a prefix of the uninterrupted run's")
+                        continue
                     tr = np.asarray(out.traces["pos"][c])
                     written = ~np.isnan(tr).any(axis=1)
                     nw = int(written.sum())
@@ -168,7 +210,7 @@ def real_interrupt_search(ctx):
                     unflushed = sorted(fn for fn, ev in last.items() if ev == "w")
                     if unflushed:
                         probs.append(f"{len(unflushed)} memory-mapped outputs were written after their last flush (e.g. {Path(unflushed[0]).name})")
-                if n_process > 1:
+                if n_process > 1 and not notrace:
                     with_rows = sum(1 for c in range(n_chain) if not np.isnan(np.asarray(out.traces["pos"][c])).all())
                     if len(out.final_states) < with_rows:
                         probs.append(f"{len(out.final_states)} final states returned although {with_rows} chains recorded iterations")
@@ -207,3 +249,4 @@ def run(ctx):
         cases += [sampler_corr.gen_case(ctx.rng, "intr") for _ in range(40 if not ctx.thorough else 300)]
         sampler_corr.run_cases(ctx, cases, "interrupt")
     real_interrupt_search(ctx)
+    ctrl_c_search(ctx)
